@@ -79,6 +79,18 @@ impl RefUdpClient {
         out
     }
 
+    pub fn recv_raw(&self, dur: Duration, want: usize) -> Vec<Vec<u8>> {
+        let t0 = std::time::Instant::now();
+        let mut out = vec![];
+        let mut buf = vec![0u8; 70000];
+        while t0.elapsed() < dur && out.len() < want {
+            if let Ok((n, _)) = self.sock.recv_from(&mut buf) {
+                out.push(buf[..n].to_vec());
+            }
+        }
+        out
+    }
+
     pub fn decode_reply(&self, wire: &[u8]) -> Result<(u64, Addr, Vec<u8>), String> {
         match self.cred.proto {
             Proto::Ss22(c) => {
